@@ -1,8 +1,8 @@
 (* CQL3 lexical model shared by C27 and C29.  Strings are lists of Unicode code points (Z).
    Part 1: an independent lexer for identifiers / string literals / integers (transcribed from Cassandra's Lexer.g:
-           IDENT = LETTER (LETTER|DIGIT|'_')*, folded to lower case; QUOTED_NAME = 'DQUOTE' (~'DQUOTE' | 'DQUOTEDQUOTE')* 'DQUOTE';
+           IDENT = LETTER (LETTER|DIGIT|'_')*, folded to lower case; QUOTED_NAME = 'dq' (~'dq' | 'dqdq')* 'dq';
            STRING_LITERAL = '\'' (~'\'' | '\'\'')* '\''; INTEGER = '-'? DIGIT+).
-           Reading fixed for the empty name: Lexer.g writes QUOTED_NAME with `+`; this lexer accepts `DQUOTEDQUOTE` as the empty
+           Reading fixed for the empty name: Lexer.g writes QUOTED_NAME with `+`; this lexer accepts `dqdq` as the empty
            name (permissive toward the driver, see docs/C27.md).
    Part 2: the driver's functions (cassandra/metadata.py, cassandra/encoder.py, cassandra/connection.py), mirrored.
    No proofs in this file. *)
@@ -15,7 +15,7 @@ Local Open Scope Z_scope.
 Definition str := list Z.
 
 (* ---------- character classes ---------- *)
-Definition DQ : Z := 34.   (* DQUOTE *)
+Definition DQ : Z := 34.   (* dq *)
 Definition SQ : Z := 39.   (* ' *)
 Definition NL : Z := 10.
 Definition is_upper (c : Z) : bool := (65 <=? c) && (c <=? 90).
@@ -126,10 +126,10 @@ Definition lex_use (s : str) : option str :=
 (* str.replace(q, q q) *)
 Definition double_q (q : Z) (s : str) : str := flat_map (fun c => if c =? q then [q; q] else [c]) s.
 
-(* metadata.escape_name:  'DQUOTE%sDQUOTE' % (name.replace('DQUOTE', 'DQUOTEDQUOTE'),) *)
+(* metadata.escape_name:  'dq%sdq' % (name.replace('dq', 'dqdq'),) *)
 Definition escape_name (n : str) : str := DQ :: double_q DQ n ++ [DQ].
 
-(* encoder.cql_quote on a str:  DQUOTE'%s'DQUOTE % str(term).replace(DQUOTE'DQUOTE, DQUOTE''DQUOTE) *)
+(* encoder.cql_quote on a str:  dq'%s'dq % str(term).replace(dq'dq, dq''dq) *)
 Definition cql_quote (s : str) : str := SQ :: double_q SQ s ++ [SQ].
 
 (* the regular expression valid_cql3_word_re, as regenerated from source:
@@ -150,7 +150,7 @@ Definition word_re_match_d (dollar : bool) (n : str) : bool :=
   end.
 
 (* str.lower(): exact on ASCII; identity elsewhere.  Python lowers some non-ASCII letters to ASCII (KELVIN SIGN),
-   which can only turn is_valid_name from DQUOTEregex says noDQUOTE into DQUOTEreserved says noDQUOTE: same result (docs/C27.md). *)
+   which can only turn is_valid_name from dqregex says nodq into dqreserved says nodq: same result (docs/C27.md). *)
 Definition py_lower (s : str) : str := map to_lower s.
 
 (* metadata.is_valid_name (name is not None) *)
@@ -186,7 +186,7 @@ Definition protect_value (v : pvalue) : str :=
   end.
 
 (* connection.set_keyspace_blocking / set_keyspace_async: the USE statement text.
-   use_escapes is regenerated from the source: does the argument of `USE DQUOTE%sDQUOTE` double embedded quotes? *)
+   use_escapes is regenerated from the source: does the argument of `USE dq%sdq` double embedded quotes? *)
 Definition use_keyspace_e (esc : bool) (ks : str) : str :=
   codes "USE " ++ (if esc then escape_name ks else DQ :: ks ++ [DQ]).
 Definition use_keyspace := use_keyspace_e use_escapes.
